@@ -6,7 +6,7 @@
     reaction | restart | somebody else writes storage). The model is the code AFTER the fixes
     recorded in known_findings.d/C14.json. *)
 From Coq Require Import List ZArith Bool Lia.
-From CM Require Import Ocsp.Model Ocsp.Proofs.
+From CM Require Import Ocsp.Model Ocsp.Proofs Ocsp.Check Ocsp.Proofs2.
 Import ListNotations.
 Open Scope Z_scope.
 
@@ -415,4 +415,149 @@ Proof.
   vm_compute. repeat split; try discriminate.
   - constructor; [intros []|constructor].
   - intros b r H P. inversion H; subst. inversion P; subst. discriminate.
+Qed.
+
+(** ** 7. Final round: completeness, the currency clause at its edges, answers with nothing in
+    them, persisted staples over histories with restarts, and soundness of every monitor clause *)
+
+(** F — completeness: a verified Good answer for this serial, in date now, not outliving the
+    certificate, IS stapled (and recorded, and persisted unless the store fails) whenever the
+    responder is asked *)
+Theorem C14_good_in_date_answer_is_stapled : forall c cs st e now b r,
+  c_url c = true -> reusable c now st = false ->
+  e_ans e = ABytes b -> parse_issuer b = Some r -> r_status r = Good ->
+  valid_for c now r = true -> r_next r <= c_expiry c ->
+  let res := staple false c cs st e now in
+  cs_staple (res_cs res) = Some b /\ cs_ocsp (res_cs res) = Some r /\ res_seen res = true /\
+  (e_store_err e = false -> res_store res = Some b /\ res_err res = false).
+Proof. exact good_answer_stapled. Qed.
+Print Assumptions C14_good_in_date_answer_is_stapled.
+
+(** F — the currency clause at its exact edges: thisUpdate = now is in date, nextUpdate = now is
+    not (nor anything earlier), thisUpdate after now is not; no tolerance either way *)
+Theorem C14_currency_at_boundaries : forall c now r,
+  r_serial r = c_serial c -> responder_ok now r = true ->
+  (r_this r = now -> (r_next r = zero_time \/ now < r_next r) -> valid_for c now r = true) /\
+  (r_next r = now -> now <> zero_time -> valid_for c now r = false) /\
+  (now < r_this r -> valid_for c now r = false) /\
+  (r_next r <> zero_time -> r_next r <= now -> valid_for c now r = false).
+Proof. exact currency_at_boundaries. Qed.
+Print Assumptions C14_currency_at_boundaries.
+
+(** F — so an answer that ended now or a nanosecond ago, or begins a nanosecond from now, never
+    changes the staple, and a persisted staple in that state is not reused *)
+Theorem C14_out_of_date_answer_never_stapled : forall dis c cs st e now b r,
+  reusable c now st = false -> e_ans e = ABytes b -> b_parse b = Some r ->
+  ((r_next r <> zero_time /\ r_next r <= now) \/ now < r_this r) ->
+  cs_staple (res_cs (staple dis c cs st e now)) = cs_staple cs.
+Proof. exact out_of_date_answer_never_stapled. Qed.
+Print Assumptions C14_out_of_date_answer_never_stapled.
+
+Theorem C14_out_of_date_persisted_not_reused : forall c now b r,
+  stored_parse c b = Some r ->
+  ((r_next r <> zero_time /\ r_next r <= now) \/ now < r_this r) ->
+  reusable c now (Some b) = false.
+Proof. exact out_of_date_persisted_not_reused. Qed.
+Print Assumptions C14_out_of_date_persisted_not_reused.
+
+(** F — a responder that answers with nothing usable (empty body behind any HTTP status, white
+    space, rubbish): the call comes back ([staple] is a total function: there is no input on which
+    it is stuck), the certificate's OCSP state is untouched, at most an error is reported (none
+    for short-lived certificates); and the certificate is cached all the same *)
+Theorem C14_answer_with_nothing_not_fatal : forall dis c cs st e now b,
+  e_ans e = ABytes b -> b_parse b = None -> reusable c now st = false ->
+  let res := staple dis c cs st e now in
+  res_cs res = cs /\ res_attached res = false /\ (res_err res = true -> c_short c = false).
+Proof. exact unusable_body_not_fatal. Qed.
+Print Assumptions C14_answer_with_nothing_not_fatal.
+
+Theorem C14_answer_with_nothing_certificate_cached : forall s c m dis e now b,
+  e_ans e = ABytes b -> b_parse b = None ->
+  has_cert (c_id c) (cache (fst (step s (OCache c m dis e now)))) = true.
+Proof. intros s c m dis e now b _ _. apply (cache_always_caches s c m dis e now). Qed.
+Print Assumptions C14_answer_with_nothing_certificate_cached.
+
+(** F — over every history, with any number of restarts, in which nobody but certmagic writes
+    persisted staples (or writes verified Good ones): every persisted staple parses, verifies
+    against the issuer and is Good *)
+Theorem C14_persisted_staples_verified_good : forall ops,
+  Forall op_clean ops -> store_good (stor (run (Sys [] []) ops)).
+Proof. intros ops C. apply run_store_good; [intros id b H; discriminate|exact C]. Qed.
+Print Assumptions C14_persisted_staples_verified_good.
+
+(** F — reuse across a restart after ANY history [ops] from ANY state: if what is persisted for
+    [c] is reusable at [now], the next process caches [c] without the responder seeing a request
+    (whatever it would answer), leaves the persisted staple alone, and staples it if it is Good
+    and does not outlive the certificate *)
+Theorem C14_reuse_across_restart_after_any_history : forall ops s c m e now,
+  let s1 := run s ops in
+  reusable c now (sget (c_id c) (stor s1)) = true -> e_load_err e = false ->
+  let st2 := step (fst (step s1 ORestart)) (OCache c m false e now) in
+  (forall cl, In cl (snd st2) -> cl_seen cl = false) /\
+  sget (c_id c) (stor (fst st2)) = sget (c_id c) (stor s1) /\
+  (forall b, sget (c_id c) (stor s1) = Some b -> attach_ok c now false b = true ->
+     exists en, cache (fst st2) = [en] /\ en_cert en = c /\ en_managed en = m /\
+                cs_staple (en_cs en) = Some b).
+Proof. exact reuse_across_restart. Qed.
+Print Assumptions C14_reuse_across_restart_after_any_history.
+
+(** F — monitor soundness, single calls: the WHOLE check of a call ([check_call]: comparison,
+    [spec_call], [returned]) answers "agrees, holds" (0) on what the model does, for all inputs;
+    and a panic is always reported as "disagrees, fails" (3) *)
+Theorem C14_check_call_sound : forall dis c cs st e now,
+  check_call (CallCase dis c cs st e now (staple dis c cs st e now) false) = 0.
+Proof. exact check_call_sound. Qed.
+Print Assumptions C14_check_call_sound.
+
+Theorem C14_check_call_panic_reported : forall dis c cs st e now obs,
+  check_call (CallCase dis c cs st e now obs true) = 3.
+Proof. exact check_call_panic_reported. Qed.
+Print Assumptions C14_check_call_panic_reported.
+
+(** F — monitor soundness, the clauses added for handshakes and for the handshake's view *)
+Theorem C14_ret_ok_sound : forall pre o, ret_ok pre o (hs_expected pre o) = true.
+Proof. exact ret_ok_sound. Qed.
+Print Assumptions C14_ret_ok_sound.
+
+Theorem C14_served_consistent_sound : forall names s,
+  served_consistent s (served_view names (cache s)) = true.
+Proof. exact served_consistent_sound. Qed.
+Print Assumptions C14_served_consistent_sound.
+
+(** F — monitor soundness, histories: the specification half of the history check ([check_hist]:
+    spec_step, served_consistent, own_reuse_step, ret_ok, returned at EVERY step) holds of every
+    well-formed history of the model, of any length, with any mix of cache operations, ticks,
+    handshakes, manageOne visits, foreign writes and restarts *)
+Theorem C14_history_check_sound : forall certs names ops s a,
+  NoDup (ids (cache s)) -> run_wf s ops ->
+  snd (check_hist certs s (model_hist names s ops) a true) = true.
+Proof. intros certs names. exact (check_hist_spec_sound certs names). Qed.
+Print Assumptions C14_history_check_sound.
+
+(** non-vacuity of the above *)
+Example C14_example_boundaries :
+  let at_this := Blob 30 (Some (xr Good 11 1200 2000)) in      (* thisUpdate = now *)
+  let at_next := Blob 31 (Some (xr Good 11 900 1200)) in       (* nextUpdate = now *)
+  let future := Blob 32 (Some (xr Good 11 1201 2000)) in       (* thisUpdate = now + 1 ns *)
+  cs_staple (res_cs (staple false xc1 (CS None None) None (xenv at_this) 1200)) = Some at_this /\
+  cs_staple (res_cs (staple false xc1 (CS None None) None (xenv at_next) 1200)) = None /\
+  cs_staple (res_cs (staple false xc1 (CS None None) None (xenv future) 1200)) = None /\
+  reusable xc1 1200 (Some at_next) = false /\ reusable xc1 1200 (Some future) = false /\
+  valid_for xc1 1200 (xr Good 11 1200 2000) = true /\ parse_issuer at_this = Some (xr Good 11 1200 2000).
+Proof. vm_compute. repeat split; auto. Qed.
+
+Example C14_example_nothing_and_restart :
+  (* an empty body: nothing changes, an error is reported for this 90-day certificate *)
+  (let res := staple false xc1 (CS None None) None (xenv (Blob 40 None)) 1200 in
+   res_cs res = CS None None /\ res_err res = true /\ c_short xc1 = false) /\
+  (* the premises of the restart theorem after a real history, and its hypotheses on the history *)
+  reusable xc1 1200 (sget 1 (stor (run (Sys [] []) (firstn 1 xhist)))) = true /\
+  attach_ok xc1 1200 false xgood = true /\
+  Forall op_clean xhist /\ run_wf (Sys [] []) (xhist ++ [ORestart; OCache xc2 false false (xenv (Blob 40 None)) 1700]) /\
+  snd (check_hist [xc1; xc2] (Sys [] []) (model_hist [1] (Sys [] []) xhist) true true) = true.
+Proof.
+  split; [vm_compute; auto|]. split; [vm_compute; reflexivity|]. split; [vm_compute; reflexivity|].
+  split; [repeat constructor|]. split; [|vm_compute; reflexivity].
+  destruct C14_example_run_wf as [W _]. cbn [run_wf xhist app] in *.
+  destruct W as (W1 & W2 & W3 & (W4a & W4b) & _). repeat split; auto; try exact I.
 Qed.
